@@ -26,9 +26,9 @@ ASSUMPTIONS = [
     "times given as an integer or as a full {min,max} pair; min-only / max-only spellings are not asserted (defaults are not part of the statement)",
     "operand-level times is judged by the metamorphic relation only",
 ]
-KINDS = ["item", "item-ops", "$and", "$or", "$not", "$and_any_order"]
+KINDS = ["item", "item-ops", "$and", "$or", "$not", "$and_any_order", "nested-times"]
 SHAPES = ["sandwich", "sandwich", "sandwich", "free", "meta", "meta"]
-FLOORS = {"shape=sandwich": 0.3, "shape=meta": 0.2, "edge=min": 0.05, "edge=max": 0.05, "edge=max+1": 0.05, "edge=min-1": 0.03}
+FLOORS = {"shape=sandwich": 0.3, "shape=meta": 0.2, "edge=min": 0.05, "edge=max": 0.05, "edge=max+1": 0.04, "edge=min-1": 0.03}
 for _k in KINDS:
     FLOORS[f"kind={_k}"] = 0.06
 
@@ -81,6 +81,17 @@ def build_x(draw, kind, full=(False, False)):
             s = describe_operand(draw, b[2][0], full[1])
             node = {node: [s if s is not None else "a"]}
         return node, [[b]]
+    if kind == "nested-times":
+        # a repeated group whose single child is itself repeated: the bounds do not multiply into one quantifier
+        # ($and[nop times 2] times {1,2} is 2 or 4 nops, never 3)
+        b = fresh(draw)
+        inner = describe_inst(draw, ("0", b[0], b[2]), full)
+        lo_in = draw(st.integers(1, 2))
+        hi_in = draw(st.integers(lo_in, lo_in + 1))
+        t_in = lo_in if lo_in == hi_in and draw(st.booleans()) else {"min": lo_in, "max": hi_in}
+        child = attach(inner, t_in, "inside" if isinstance(inner, (str, int)) else "sibling")
+        node = {draw(st.sampled_from(["$and", "$and", "$or"])): [child]}
+        return node, [[b] * c for c in range(lo_in, hi_in + 1)]
     if kind == "$and":
         bs = [fresh(draw) for _ in range(draw(st.integers(1, 3)))]
         node = {"$and": [describe_inst(draw, ("0", b[0], b[2]), full) for b in bs]}
@@ -155,7 +166,14 @@ def cases(draw):
         # one repetition is the forbidden instruction itself
         body[draw(st.integers(0, len(body) - 1))] = inst_alts[-1][0]
     ext = "none"
-    if body and draw(st.integers(0, 3)) == 0:
+    if kind == "nested-times" and body and draw(st.integers(0, 2)) == 0:
+        # one inner instruction too few / too many: the total is no longer a sum of whole repetitions
+        if draw(st.booleans()):
+            del body[draw(st.integers(0, len(body) - 1))]
+        else:
+            body.insert(0, body[0])
+        ext = "inner-count"
+    elif body and draw(st.integers(0, 3)) == 0:
         # one repetition differs from the described instruction only by a longer mnemonic / operand (matters under the full-match flags)
         q = draw(st.integers(0, len(body) - 1))
         b = body[q]
@@ -174,6 +192,16 @@ def cases(draw):
     L = _mk_listing(draw, pre + [A] + body + [B] + post)
     dA = describe_inst(draw, ("0", A[0], A[2]), full)
     dB = describe_inst(draw, ("0", B[0], B[2]), full)
+    if shape == "sandwich" and kind in ("item", "item-ops") and inst_alts and draw(st.integers(0, 3)) == 0:
+        # the instruction after the run is one that the run's own description fits as well (same instruction with a longer
+        # mnemonic, described by that longer mnemonic): a run that may still grow has to leave it to the next item
+        xb = inst_alts[0][0]
+        Bx = [xb[0] + draw(st.sampled_from(["q", "zbl", "l"])), list(xb[1]), list(xb[2])]
+        k_b = L.index(next(rec for rec in L if rec[1] == B[0] and rec[2] == list(B[1]))) if any(rec[1] == B[0] and rec[2] == list(B[1]) for rec in L) else None
+        if k_b is not None:
+            L[k_b] = [L[k_b][0], Bx[0], Bx[1], Bx[2]]
+            dB = Bx[0] if not Bx[2] or draw(st.booleans()) else describe_inst(draw, ("0", Bx[0], Bx[2]), (True, full[1]))
+            ext = ext + "+overlapping-next" if ext != "none" else "overlapping-next"
     if shape == "sandwich":
         pattern = [dA, attach(node, t, spelling), dB]
         assume(_names_ok(pattern))
